@@ -459,8 +459,10 @@ def extremes(r):
     constant and alternating images, copies at column 0 across page boundaries, maximal/split runs."""
     out = []
     # HRS pictures larger than one standard screen (160 x 192 bytes): the size comes from the options, not from a constant
+    import random as _random
+    r_own = _random.Random(20260930)          # a stream of its own: the draws of everything that follows stay what they were
     for w, h in ((320, 200), (320, 193), (640, 100), (640, 192), (320, 400), (322, 192)):
-        out.append(build_hrs(r, w=w, h=h))
+        out.append(build_hrs(r_own, w=w, h=h))
     # every format that packs pixels into bytes: an uncompressed picture whose data runs through all 256 byte
     # values (a decoder that treats one value specially - 0x00 as "empty", 0xFF as a marker - shows here)
     global rand_pixels
